@@ -130,7 +130,9 @@ def gen_op(r: random.Random, idx: int) -> dict:
         loc = r.choice(["query", "query", "query", "header", "header", "cookie"] + (["formData"] if r.random() < 0.1 else []))
         pool = {"query": QNAMES, "header": HNAMES, "cookie": CNAMES, "formData": QNAMES}[loc]
         name = r.choice(pool) if r.random() > 0.04 else r.choice(ODD_NAMES)
-        kind = "string" if loc == "header" and r.random() < 0.8 else r.choice(["string", "string", "integer"])
+        # header (and query) parameters of every primitive type: an integer / number / boolean header goes on the wire as str(value)
+        # (F39 repaired; a recurrence is a TypeError where the model predicts a request)
+        kind = r.choice(["string", "string", "integer"]) if loc not in ("header", "query") else r.choice(["string", "string", "string", "integer", "boolean", "number"])
         params.append({"name": name, "in": loc, "required": r.random() < 0.35, "kind": kind})
     if path_level and r.random() < 0.12:
         # operation-level override of a path-level parameter (same name, same `in`; F4 repaired: ONE argument, the operation-level one)
@@ -154,7 +156,7 @@ def gen_op(r: random.Random, idx: int) -> dict:
 
 
 def op_json(op: dict) -> dict:
-    strip = lambda ps: [{"name": p["name"], "in": p["in"], "required": p["required"]} for p in ps]
+    strip = lambda ps: [{"name": p["name"], "in": p["in"], "required": p["required"], "kind": p["kind"]} for p in ps]
     return {"method": op["method"], "path": op["path"], "pathParams": strip(op["pathParams"]), "params": strip(op["params"]),
             "body": op["body"], "responses": op["responses"]}
 
@@ -236,6 +238,13 @@ def scalar(r: random.Random, tok: Tok, kind: str):
     if kind == "integer":
         n = 1000 + tok.n
         return {"t": "other", "v": str(n)}, {"k": "json", "v": n}, str(n)
+    if kind == "number":
+        x = 1000.5 + tok.n
+        return {"t": "other", "v": str(x)}, {"k": "json", "v": x}, str(x)
+    if kind == "boolean":
+        # the token of a value is its wire text: httpx writes a query boolean as true / false, and so does the repaired header line
+        b = r.random() < 0.5
+        return {"t": "other", "v": "true" if b else "false"}, {"k": "json", "v": b}, "true" if b else "false"
     return {"t": "str", "v": t}, {"k": "json", "v": t}, t
 
 
@@ -648,6 +657,8 @@ def _run(seed: int, scale: float, driver: str, e2e) -> dict:
         bump("request media", "none" if op["body"] is None else "multi" if multi else op["body"]["media"][0])
         for p in op["pathParams"] + op["params"]:
             bump("param location", p["in"] + ("(path-level)" if p in op["pathParams"] else "") + ("/required" if p["required"] else "/optional"))
+            if p["in"] == "header":
+                bump("header type", p["kind"])
         # ---- request
         comparisons += 1
         if "err" in pred_req:
@@ -697,7 +708,7 @@ def _run(seed: int, scale: float, driver: str, e2e) -> dict:
     return {"comparisons": comparisons, "disagreements": [d for d in disagreements if d is not None][:50], "disagreement_count": n_dis,
             "nontrivial": len(nontrivial),
             "rule": ("random operation shapes (8 HTTP methods; path/query/header/cookie/other parameters at path level and operation level, required "
-                     "or optional, string or integer; undeclared and repeated path variables; name collisions; no / one of 7 / 2-3 of 5 request media "
+                     "or optional, string or integer (header and query parameters also number and boolean); undeclared and repeated path variables; name collisions; no / one of 7 / 2-3 of 5 request media "
                      "types; responses drawn from 2xx, 4xx, 5xx, 1xx/3xx/600, 2XX-style and default keys with none, one or several media types of 6 "
                      "schema shapes) -> document -> real generator -> emitted client called in a fresh interpreter with seeded keyword "
                      "assignments (all / some optionals / a required one dropped / an unknown keyword) and a fake server answering every "
